@@ -101,7 +101,7 @@ def hostile_cmds():
     return out
 
 RANGES = [['0-100'], ['0-16383'], ['0-16384'], ['5-9223372036854775807'], ['0-9223372036854775807'], ['0-18446744073709551614'], ['16383-16383'], ['16384-16390'],
-          ['0-5', '7-18446744073709551614'], ['9223372036854775807-9223372036854775807'], ['3-1'], ['0-0', '2-2', '4-4', '100-9999999999']]
+          ['0-5', '7-18446744073709551614'], ['9223372036854775807-9223372036854775807'], ['1-3'], ['0-0', '2-2', '4-4', '100-9999999999']]
 
 
 def words_eval(reply_tokens):
